@@ -18,7 +18,8 @@ from nl.model import short
 RULES = {
     'C11.a': 'values are flushed before any key-file write that can point at them (in-place updates and the final flush order)',
     'C11.b': 'a previous-generation data file is removed only after the writer has flushed the new generation',
-    'C11.c': 'no truncate(true) / File::create on the data files; the reclaiming path renames before opening the new file',
+    'C11.c': 'no truncate(true) / File::create / set_len on any file the snapshot path rewrites (data files, metadata, global key map, flag); '
+             'no positional write except the in-place key update; the reclaiming path renames before opening the new file',
     'C11.d': 'the in-place update of a key record is a single write call',
     'C11.e': 'every file suffix the snapshot leaves behind is opened by the loader',
     'C11.f': 'the loader of the data files has no unwrap / expect / index that a short or garbled file can trigger',
@@ -107,13 +108,38 @@ def run(ck, m):
               'previously persisted value' % (short(b.id), what), b.loc(bi))
     ck.floor('C11.b', n, 2, 'removers of data files')
     trunc = []
+    nscope = 0
     for b in P.user_bodies():
-        if not b.id.startswith('nundb::storage::disk::'):
+        # every file the snapshot path rewrites: the data files, the metadata file, the global key map, the oplog flag
+        if not b.id.startswith(('nundb::storage::disk::', 'nundb::disk_ops::', 'nundb::storage::common::')):
+            continue
+        nscope += 1
+        for bi, t in b.calls():
+            d = callee_decl(t)
+            if d in ('std::fs::File::create', 'std::fs::File::set_len', 'std::fs::File::create_new'):
+                trunc.append('%s@%s' % (short(b.id), b.loc(bi)))
+            elif d == 'std::fs::OpenOptions::truncate':
+                vals = [core.const_val(r) for r in origins(b, t['args'][1])] if len(t['args']) > 1 else [True]
+                if vals != [False]:
+                    trunc.append('%s@%s' % (short(b.id), b.loc(bi)))
+    ck.floor('C11.c', nscope, 40, 'bodies of the persistence modules scanned for truncating opens')
+    # positional writes: the append-only files (values, keys appender, metadata) are never written at an offset; the one
+    # positional write of the snapshot path is the in-place key update judged by C11.d
+    positional = []
+    for b in P.user_bodies():
+        if not b.id.startswith(('nundb::storage::disk::', 'nundb::storage::common::')):
             continue
         for bi, t in b.calls():
             d = callee_decl(t)
-            if d == 'std::fs::File::create' or (d == 'std::fs::OpenOptions::truncate'):
-                trunc.append('%s@%s' % (short(b.id), b.loc(bi)))
+            if d.endswith(('FileExt::write_at', 'FileExt::write_all_at', 'FileExt::seek_write')):
+                positional.append((b, bi))
+    allowed = [(b, bi) for b, bi in positional if b.id.endswith('storage::disk::update_key')]
+    extra = [(b, bi) for b, bi in positional if (b, bi) not in allowed]
+    ck.ob('C11.c', 'storage::disk', 'append-only-except-key-update', bool(allowed) and not extra,
+          'the only positional write of the disk snapshot is the in-place key update' if allowed and not extra else
+          'positional write outside the in-place key update at %s: previously persisted bytes (a value record) are overwritten before the '
+          'key record that describes them switches — a kill in between leaves a value that was never stored under the old version'
+          % ['%s@%s' % (short(b.id), b.loc(bi)) for b, bi in extra], extra[0][0].loc(extra[0][1]) if extra else '')
     ck.ob('C11.c', 'storage::disk', 'no-truncate', not trunc,
           'no File::create / truncate on the data files' if not trunc else 'data files can be truncated: %s' % trunc, '')
     ren_ok = True
